@@ -42,11 +42,15 @@ J08p(T) == ("C08" \in Props /\ IsPaintedNullMap(T) /\ NullPre(T)) =>
   /\ Count(6, 1)
   /\ (PaintedNullMapContentEqual(T) \/ Say(T, "C08.painted_null_map_content_equal", Cls(T) \o "/" \o T.status))
   /\ (NullMapStatsZero(T) \/ Say(T, "C08.null_map_stats_zero", Cls(T)))
+J09(T) == ("C09" \in Props /\ Ok(T)) =>
+  /\ Count(3, Cardinality({x \in AllPieces(T) : Core(T, T.map[x[1]].pieces[x[2]]) # <<>> /\ Len(T.map[x[1]].pieces[x[2]].tags) > 0}))
+  /\ (RoutedByTag(T) \/ Say(T, "C09.routed_by_tag", Cls(T)))
+  /\ (AbsentRouted(T) \/ Say(T, "C09.absent_sequence_routed", Cls(T)))
 J11(T) == ("C11" \in Props /\ Ok(T)) =>
   /\ (T.stats.cuts = CutsDef(T) \/ Say(T, "C11.cuts", Cls(T)))
   /\ (T.stats.breaks = BreaksDef(T) \/ Say(T, "C11.breaks", Cls(T)))
   /\ (T.stats.joins = JoinsDef(T) \/ Say(T, "C11.joins", Cls(T)))
-Judge(T) == Count(1, 1) /\ J01(T) /\ J02(T) /\ J07(T) /\ J08(T) /\ J08p(T) /\ J11(T)
+Judge(T) == Count(1, 1) /\ J01(T) /\ J02(T) /\ J07(T) /\ J08(T) /\ J08p(T) /\ J09(T) /\ J11(T)
 TInit == tn = 0
 TNext == tn < Len(Traces) /\ tn' = tn + 1 /\ Judge(Traces[tn + 1]) = TRUE
 TraceSpec == TInit /\ [][TNext]_tn
